@@ -5,6 +5,7 @@ import Norad.Lemmas.C16List
 import Norad.Lemmas.C16Order
 import Norad.Generated.StoreConsts
 import Norad.Lemmas.C16Plan
+import Norad.Lemmas.C16Iter
 /-!
 # C16 — data and image stores keep their invariants and their bytes
 
@@ -584,6 +585,243 @@ theorem store_plan_eq_writeAll (s : Store) (h : Inv s) (hplain : ∀ k ∈ keys 
       | dir => simp [conv] at this
       | file b => simp [conv] at this; rw [this]
 
+/-- the images half of the plan for any list of writes whose keys are keys of the (image) store,
+    pairwise different by components -/
+theorem image_plan_runs_of (s : Store) (h : Inv s) (hkind : s.kind = .image)
+    (hplain : ∀ k ∈ keys s, (parse k).allNormal = true)
+    (t : APath) (fs : FS StoreOrder.Bytes) (ws : List WriteFile)
+    (hmemk : ∀ w ∈ ws, w.key ∈ keys s) (hdist : ws.Pairwise fun a b => parse a.key ≠ parse b.key)
+    (hT : ∀ m, m <+: t → m ≠ [] → isDir fs m = true)
+    (hfresh : ∀ q, (t ++ [storeDirName .image]) <+: q → node fs q = none) :
+    (storeWrites (t ++ [storeDirName .image]) ws).Pairwise NonNested ∧
+    ∃ fs', runEffs (planImages t (ws.map fun w => (parse w.key, w.bytes))) fs = (none, fs') ∧
+      treeOf fs' = writeAll (treeOf fs) (storeWrites (t ++ [storeDirName .image]) ws) := by
+  let base := t ++ [storeDirName .image]
+  have hbase0 : base ≠ [] := by simp [base]
+  have hpw : (storeWrites base ws).Pairwise NonNested := by
+    unfold storeWrites
+    rw [List.pairwise_map]
+    exact hdist.imp_of_mem (fun {a b} ha hb hab =>
+      ⟨dest_nonNested h hplain base (hmemk a ha) (hmemk b hb) hab,
+       dest_nonNested h hplain base (hmemk b hb) (hmemk a ha) (Ne.symm hab)⟩)
+  refine ⟨hpw, ?_⟩
+  cases hws : ws with
+  | nil => exact ⟨fs, by simp [planImages, runEffs], rfl⟩
+  | cons w0 r0 =>
+    rw [← hws]
+    have hwsne : ws ≠ [] := by rw [hws]; simp
+    -- every destination is `<target>/images/<one name>`
+    have hdest : ∀ w ∈ ws, ∃ n, destOf base w.key = base ++ [n] := by
+      intro w hw
+      have hkx := hmemk w hw
+      have hlen := h.keysOK.imageFlat hkind _ hkx
+      have hc := allNormal_comps (hplain _ hkx)
+      have hl : (namesOf (parse w.key)).length = 1 := by
+        have := congrArg List.length hc
+        rw [List.length_map] at this
+        unfold namesOf
+        omega
+      cases hn : namesOf (parse w.key) with
+      | nil => rw [hn] at hl; simp at hl
+      | cons n rest =>
+        cases rest with
+        | nil => exact ⟨n, by simp [destOf, hn]⟩
+        | cons _ _ => rw [hn] at hl; simp at hl
+    -- the plan is one `mkdir` and the list of plain writes
+    have hplan : planImages t (ws.map fun w => (parse w.key, w.bytes)) =
+        Eff.mkdir (tC base) :: (storeWrites base ws).map fun w => Eff.write (tC w.1) w.2 := by
+      unfold planImages
+      rw [if_neg (by simpa using hwsne)]
+      have hsub : sub t "images" = tC base := by
+        unfold sub tC; simp [base, images_name, List.map_append]
+      rw [hsub]
+      congr 1
+      unfold storeWrites
+      rw [List.map_map, List.map_map]
+      apply List.map_congr_left
+      intro w hw
+      simp only [Function.comp]
+      have := joinRel_sub t "images" w.key (h.keysOK.relative _ (hmemk w hw)) (hplain _ (hmemk w hw))
+      rw [hsub, images_name] at this
+      rw [this]
+    -- the `mkdir`
+    have hmk : mkdir fs (tC base) = .ok (AbsFS.set fs base .dir) :=
+      mkdir_normal_ok (l := t) (s := storeDirName .image) hT (hfresh base (List.prefix_refl _))
+    let fs0 := AbsFS.set fs base (Node.dir : Node StoreOrder.Bytes)
+    have hready : ∀ w ∈ storeWrites base ws, ReadyW fs0 w := by
+      intro w hw
+      obtain ⟨x, hx, rfl⟩ := List.mem_map.1 hw
+      obtain ⟨n, hn⟩ := hdest x hx
+      simp only [hn]
+      refine ⟨by simp, ?_, ?_⟩
+      · rw [List.dropLast_concat]
+        intro m hm hm0
+        rw [isDir_iff, node_set _ _ _ _ hbase0]
+        by_cases heq : base = m
+        · rw [if_pos heq]
+        · rw [if_neg heq, ← isDir_iff]
+          rcases List.prefix_concat_iff.1 hm with h4 | h4
+          · exact absurd h4.symm heq
+          · exact hT m h4 hm0
+      · rw [← Bool.not_eq_true, isDir_iff, node_set _ _ _ _ hbase0]
+        have hne : ¬ base = base ++ [n] := by
+          intro hc
+          have := congrArg List.length hc
+          simp at this
+        rw [if_neg hne, hfresh _ (List.prefix_append _ _)]
+        simp
+    obtain ⟨fs', hrun, htree⟩ := writes_run _ hpw fs0 hready
+    refine ⟨fs', ?_, ?_⟩
+    · rw [hplan]
+      simp only [runEffs, runEff, hmk]
+      exact hrun
+    · rw [htree]
+      have h0 : treeOf fs0 = fun q => if q = base then some FNode.dir else treeOf fs q := by
+        funext q
+        unfold treeOf
+        rw [node_set _ _ _ _ hbase0]
+        by_cases hq : base = q
+        · subst hq; simp [conv]
+        · have : ¬ q = base := fun e => hq e.symm
+          simp [hq, this]
+      rw [h0]
+      apply writeAll_after_mkdir
+      · unfold storeWrites; simpa using hwsne
+      · intro w hw
+        obtain ⟨x, hx, rfl⟩ := List.mem_map.1 hw
+        obtain ⟨n, hn⟩ := hdest x hx
+        simp only [hn]
+        unfold below
+        simp only [Bool.and_eq_true, bne_iff_ne, ne_eq]
+        refine ⟨List.isPrefixOf_iff_prefix.2 (List.prefix_append _ _), ?_⟩
+        intro hc
+        have := congrArg List.length hc
+        simp at this
+
+/-- **the images half of the plan runs on `AbsFS`** and leaves `StoreOrder.writeAll`'s tree: for an image
+    store under the invariant with normal-component keys, target directory present and nothing at or
+    below `<target>/images`, the effects `FontSave.planImages t i` (one `mkdir`, then one plain `write`
+    per entry) all succeed -/
+theorem image_plan_runs (s : Store) (h : Inv s) (hkind : s.kind = .image)
+    (hplain : ∀ k ∈ keys s, (parse k).allNormal = true)
+    (t : APath) (fs : FS StoreOrder.Bytes) (ws : List WriteFile) (h1 : writesOf s = some ws)
+    (hT : ∀ m, m <+: t → m ≠ [] → isDir fs m = true)
+    (hfresh : ∀ q, (t ++ [storeDirName .image]) <+: q → node fs q = none) :
+    ∃ fs', runEffs (planImages t (ws.map fun w => (parse w.key, w.bytes))) fs = (none, fs') ∧
+      treeOf fs' = writeAll (treeOf fs) (storeWrites (t ++ [storeDirName .image]) ws) := by
+  obtain ⟨hk, _⟩ := writesOf_spec s ws h1
+  have hmemk : ∀ w ∈ ws, w.key ∈ keys s := fun w hw => hk ▸ List.mem_map.2 ⟨w, hw, rfl⟩
+  have hdist : ws.Pairwise fun a b => parse a.key ≠ parse b.key := by
+    have := h.keysOK.distinct
+    unfold List.Nodup at this
+    rw [← hk, List.map_map, List.pairwise_map] at this
+    exact this
+  exact (image_plan_runs_of s h hkind hplain t fs ws hmemk hdist hT hfresh).2
+
+/-- … and any other order `ws₂` of the image writes also runs, reaches the same tree, and every image
+    file holds exactly its entry's bytes -/
+theorem image_plan_eq_writeAll (s : Store) (h : Inv s) (hkind : s.kind = .image)
+    (hplain : ∀ k ∈ keys s, (parse k).allNormal = true)
+    (t : APath) (fs : FS StoreOrder.Bytes) (ws₁ ws₂ : List WriteFile) (h1 : writesOf s = some ws₁)
+    (hperm : ws₁.Perm ws₂)
+    (hT : ∀ m, m <+: t → m ≠ [] → isDir fs m = true)
+    (hfresh : ∀ q, (t ++ [storeDirName .image]) <+: q → node fs q = none) :
+    ∃ fs₁ fs₂,
+      runEffs (planImages t (ws₁.map fun w => (parse w.key, w.bytes))) fs = (none, fs₁) ∧
+      runEffs (planImages t (ws₂.map fun w => (parse w.key, w.bytes))) fs = (none, fs₂) ∧
+      treeOf fs₁ = treeOf fs₂ ∧
+      ∀ w ∈ ws₂, node fs₂ (destOf (t ++ [storeDirName .image]) w.key) = some (.file w.bytes) := by
+  obtain ⟨hk, _⟩ := writesOf_spec s ws₁ h1
+  have hmemk : ∀ w ∈ ws₁, w.key ∈ keys s := fun w hw => hk ▸ List.mem_map.2 ⟨w, hw, rfl⟩
+  have hdist : ws₁.Pairwise fun a b => parse a.key ≠ parse b.key := by
+    have := h.keysOK.distinct
+    unfold List.Nodup at this
+    rw [← hk, List.map_map, List.pairwise_map] at this
+    exact this
+  have hmemk2 : ∀ w ∈ ws₂, w.key ∈ keys s := fun w hw => hmemk w (hperm.mem_iff.2 hw)
+  have hdist2 : ws₂.Pairwise fun a b => parse a.key ≠ parse b.key :=
+    (hperm.pairwise_iff (fun {a b} (hab : parse a.key ≠ parse b.key) => Ne.symm hab)).1 hdist
+  obtain ⟨hpw1, f1, r1, t1⟩ := image_plan_runs_of s h hkind hplain t fs ws₁ hmemk hdist hT hfresh
+  obtain ⟨hpw2, f2, r2, t2⟩ := image_plan_runs_of s h hkind hplain t fs ws₂ hmemk2 hdist2 hT hfresh
+  refine ⟨f1, f2, r1, r2, ?_, ?_⟩
+  · rw [t1, t2]
+    exact writes_order_independent _ (hperm.map _) hpw1
+  · intro w hw
+    have := writeAll_lookup (treeOf fs) _ hpw2 (destOf (t ++ [storeDirName .image]) w.key, w.bytes)
+      (List.mem_map.2 ⟨w, hw, rfl⟩)
+    rw [← t2] at this
+    simp only [treeOf] at this
+    cases hn : node f2 (destOf (t ++ [storeDirName .image]) w.key) with
+    | none => rw [hn] at this; simp at this
+    | some n =>
+      rw [hn] at this
+      cases n with
+      | dir => simp [conv] at this
+      | file b => simp [conv] at this; rw [this]
+
+/-! ## `iter` and the map order -/
+
+/-- **`iter`'s forcing does not depend on the map order**: visiting the same keys (pairwise different by
+    components, as the keys of a store are) in any other order leaves the same store — every `get`
+    touches only its own cell, and what it caches depends on the other entries only through their keys -/
+theorem iter_forcing_order_independent (s : Store) (d : Disk) (ks₁ ks₂ : List Key) (hp : ks₁.Perm ks₂)
+    (hd : ks₁.Pairwise fun a b => parse a ≠ parse b) :
+    (iterFrom s d ks₁).1 = (iterFrom s d ks₂).1 := by
+  rw [iterFrom_fst, iterFrom_fst]
+  exact StoreOrder.foldl_perm_of_comm (fun s k => (get s d k).1) (fun a b => parse a ≠ parse b)
+    (fun {a b} h => Ne.symm h) (fun s a b h => get_comm s d h) hp hd s
+
+/-- … in particular for a store under the invariant and any order `ks` of its own keys (any `HashMap`
+    order): the store `iter` leaves, and the store a save's forcing pass leaves when it finds no error -/
+theorem iter_any_hash_order (s : Store) (h : Inv s) (d : Disk) (ks : List Key) (hp : ks.Perm (keys s)) :
+    (iterFrom s d ks).1 = (iter s d).1 ∧
+    ∀ s1, forceUntilError s d ks = (s1, none) → s1 = (iter s d).1 := by
+  have hd : (keys s).Pairwise fun a b => parse a ≠ parse b := by
+    have := h.keysOK.distinct
+    unfold List.Nodup at this
+    rwa [List.pairwise_map] at this
+  have hd' : ks.Pairwise fun a b => parse a ≠ parse b :=
+    (hp.pairwise_iff (fun {a b} (hab : parse a ≠ parse b) => Ne.symm hab)).2 hd
+  have h1 := iter_forcing_order_independent s d ks (keys s) hp hd'
+  refine ⟨h1, ?_⟩
+  intro s1 hf
+  rw [forceUntilError_fst_of_none hf, ← iterFrom_fst]
+  exact h1
+
+/-- every result `iter` reports for a key of the store is what the store it leaves holds for that key
+    (so the reported results, too, are a function of the key, not of the visiting order) -/
+theorem iter_results_from_final_store (s : Store) (d : Disk) (ks : List Key) :
+    ∀ k r, (k, r) ∈ (iterFrom s d ks).2 → find? s.items k ≠ none →
+      ∀ d', get (iterFrom s d ks).1 d' k = ((iterFrom s d ks).1, some r) := by
+  induction ks generalizing s with
+  | nil => intro k r h; simp [iterFrom] at h
+  | cons k' rest ih =>
+    intro k r hm hfound d'
+    simp only [iterFrom] at hm ⊢
+    rcases List.mem_cons.1 hm with heq | hm'
+    · injection heq with hk hr
+      subst hk
+      cases hv : (get s d k).2 with
+      | none =>
+        exfalso
+        unfold get at hv
+        cases hf : find? s.items k with
+        | none => exact hfound hf
+        | some e =>
+          obtain ⟨k0, c⟩ := e
+          rw [hf] at hv
+          cases c <;> simp at hv
+      | some r0 =>
+        rw [hv] at hr
+        simp only [Option.getD_some] at hr
+        subst hr
+        obtain ⟨c, hs, hc⟩ := get_settles hv
+        obtain ⟨⟨k0, hf⟩, hne⟩ := settled_iterFrom (disk := d) rest hs
+        rw [get_settled_ignores_disk _ _ k k0 c hf hne, hc]
+    · apply ih (get s d k').1 k r hm'
+      rw [find?_ne_none_iff, hasKey_get, ← find?_ne_none_iff]
+      exact hfound
+
 /-! ## source-level tie (constants re-extracted from `src/datastore.rs` / `src/font.rs` on every run) -/
 
 /-- the signature `Image::validate_entry` tests is the eight-byte PNG signature of the model -/
@@ -690,12 +928,11 @@ theorem store_accepts_trailing_separator_counterexample :
     (insert ⟨.data, []⟩ ['a','/'] []).2 = .ok () ∧ (insert ⟨.image, []⟩ ['a','/'] pngSig).2 = .ok () ∧
     dirish ['a','/'] = true ∧ parse ['a','/'] = parse ['a'] := by decide
 
-/-! ## OPEN (stated, not proved — not counted as obligations)
+/-! ## OPEN
 
-* the image half of the plan (`FontSave.planImages`: one `mkdir` of `<target>/images`, then plain writes)
-  on `AbsFS`; `store_plan_runs` covers the data half (`planDataItem`: `mkdirAll` + `write` per entry).
-* `iter`'s *forcing* is independent of the map order (each `get` touches only its own cell).
--/
+Nothing stated in this file is left unproved.  (Outside the model's reach, see `docs/notes/C16.md`: the
+tree a save leaves for stores holding `.`/`..`/trailing-separator keys — recorded findings — and I/O
+errors other than not-found / is-a-directory / not-a-directory.) -/
 
 /-! ## non-vacuity -/
 
@@ -774,6 +1011,19 @@ example :
       fun w => (parse w.key, w.bytes)).flatMap (planDataItem [['t']])) fs
     r.1 = none ∧ node r.2 [['t'], ['d', 'a', 't', 'a'], ['b'], ['c']] = some (.file [2]) ∧
     node r.2 [['t'], ['d', 'a', 't', 'a'], ['b']] = some .dir := by decide
+-- `image_plan_runs` is not vacuous: image keys `a` and `b`, target `/t` existing and empty
+example :
+    let fs : FS StoreOrder.Bytes := [([['t']], .dir)]
+    let r := runEffs (planImages [['t']] ([(⟨.image, ['a'], [1]⟩ : WriteFile), ⟨.image, ['b'], [2]⟩].map
+      fun w => (parse w.key, w.bytes))) fs
+    r.1 = none ∧ node r.2 [['t'], ['i', 'm', 'a', 'g', 'e', 's'], ['b']] = some (.file [2]) ∧
+    node r.2 [['t'], ['i', 'm', 'a', 'g', 'e', 's']] = some .dir := by decide
+-- `iter_forcing_order_independent` is not vacuous: two lazy entries, both orders, same store
+example :
+    let s : Store := ⟨.data, [(['a'], .notLoaded), (['b'], .notLoaded)]⟩
+    let d : Disk := fun k => if k = ['a'] then some [1] else none
+    (iterFrom s d [['a'], ['b']]).1 = (iterFrom s d [['b'], ['a']]).1 ∧
+    (iterFrom s d [['a'], ['b']]).1.items = [(['a'], .loaded [1]), (['b'], .error .io)] := by decide
 -- an error entry refuses the save; a clean store reaches the effects
 example : (saveStores ⟨.data, [(['a'], .notLoaded)]⟩ ⟨.image, []⟩ (fun _ => none) (fun _ => none)).2
     = .refused ['a'] := by decide
